@@ -29,7 +29,9 @@ Definition arith (f : Z -> Z -> Z) (a b : pv) : res pv :=
             | VFloat, _ | _, VFloat => Ok VFloat
             | _, _ => Err EType end
   end.
-Definition py_add := arith Z.add.
+(* + : integers (and "some float"), and the concatenation of two byte strings *)
+Definition py_add (a b : pv) : res pv :=
+  match a, b with VBytes x, VBytes y => Ok (VBytes (x ++ y)) | _, _ => arith Z.add a b end.
 Definition py_sub := arith Z.sub.
 Definition py_mul := arith Z.mul.
 (* int ** int: a float for a negative exponent (the base is never 0 in the translated code: checked by the translator) *)
